@@ -90,14 +90,25 @@ type World struct {
 	closed  bool
 	// Lookup resolves filter references against the committed store.
 	stepping *Pair
+	preMigrate func(db *fakepg.DB)
 	mu       sync.Mutex
 }
 
 // NewWorld validates and migrates the configuration through shovel's own code
 // and builds one task per (integration, source).
-func NewWorld(t fataler, sources []*SourceCfg, decls []*refmodel.Decl) (*World, error) {
+// WorldOpt customises world construction.
+type WorldOpt func(w *World)
+
+// WithPreMigrate runs f on the database after shovel's own schema exists and
+// before config.Migrate (pre-existing user tables).
+func WithPreMigrate(f func(db *fakepg.DB)) WorldOpt { return func(w *World) { w.preMigrate = f } }
+
+func NewWorld(t fataler, sources []*SourceCfg, decls []*refmodel.Decl, opts ...WorldOpt) (*World, error) {
 	pg, ns := env()
 	w := &World{t: t, Sources: sources, decls: decls}
+	for _, o := range opts {
+		o(w)
+	}
 	w.dbName = fmt.Sprintf("db%d", dbSeq.Add(1))
 	w.db = pg.NewDB(w.dbName)
 	w.db.ApplyShovelSchema()
@@ -127,6 +138,9 @@ func NewWorld(t fataler, sources []*SourceCfg, decls []*refmodel.Decl) (*World, 
 	w.pool, err = pgxpool.New(context.Background(), pg.URL(w.dbName))
 	if err != nil {
 		return w, err
+	}
+	if w.preMigrate != nil {
+		w.preMigrate(w.db)
 	}
 	if err := config.Migrate(context.Background(), w.pool, w.conf); err != nil {
 		return w, fmt.Errorf("Migrate: %w", err)
@@ -471,3 +485,7 @@ func (w *World) ExpectedLookup(p *Pair, upto uint64, lookup model.Lookup) []mode
 	p.Src.Node.Unlock()
 	return model.Project(p.Decl, blocks, p.Src.Name, p.Src.ChainID, lookup)
 }
+
+const fakepgDelCursor = `delete from shovel.task_updates where src_name = $1 and ig_name = $2 and num >= $3`
+
+func bigZero() *big.Int { return new(big.Int) }
